@@ -147,6 +147,16 @@ pub fn run(rep: &mut StageReport, tier: &str, _seed: u64) {
                 }
                 Err(e) => v.push(("impostor server (self-signed)".to_string(), true, Err(format!("INCONCLUSIVE impostor server start failed: {e}")))),
             }
+            // --- the CA file a deployment points at is replaced in place (CA rotation): a client built afterwards
+            // from the same path trusts what the file says *now*
+            let deployed = pem_dir.join("deployed-ca.der");
+            let _ = std::fs::write(&deployed, read_der(&a.client_ca()).unwrap());
+            v.push(("lib: client built from a deployed CA path holding CA-A → server A: control, must work".to_string(), true, lib_attempt(&sa.endpoint(), &deployed, &a.client_cert(), &a.client_key(), &t(22)).await));
+            let _ = std::fs::write(&deployed, read_der(&b.client_ca()).unwrap());
+            v.push(("lib: client built from the same path after the file was replaced by CA-B (cert A) → server A, whose certificate chains to the CA the file no longer holds".to_string(), false, lib_attempt(&sa.endpoint(), &deployed, &a.client_cert(), &a.client_key(), &t(23)).await));
+            v.push(("lib: client built from the same path after the file was replaced by CA-B (cert B) → server B: must work".to_string(), true, lib_attempt(&sb.endpoint(), &deployed, &b.client_cert(), &b.client_key(), &t(24)).await));
+            let _ = std::fs::write(&deployed, read_der(&a.client_ca()).unwrap());
+            v.push(("lib: the file is switched back to CA-A (cert B) → server B".to_string(), false, lib_attempt(&sb.endpoint(), &deployed, &b.client_cert(), &b.client_key(), &t(25)).await));
             let _ = std::fs::remove_dir_all(&pem_dir);
             sa.stop();
             sb.stop();
